@@ -5,6 +5,11 @@ import Reduino.Lang.Tr
     * expressions are well typed for the coarse inference: `and`/`or` over bool-typed operands (their Python value is
       then a bool), unary minus over an int-typed operand, conditional expressions with equally typed branches,
       `min`/`max` over int-typed operands (Python returns the operand itself, C++ the common type of both);
+      the binary operators `+ - * & | ^ // %` and `abs` take operands of either type (the inferred type is `int`, the
+      Python value converted to `int` is what C computes; `&`, `|`, `^` of two bools is a Python bool, which `mon.write`
+      then refuses in the model);
+    * `//` and `%` need no side condition here: a zero divisor makes the Python run fail (the theorem's premise), a negative
+      operand makes the strict C run stop with `signedDiv` (the theorem's third outcome);
     * every assignment to a name has the type the name was declared with (first assignment wins);
     * for-range: the loop variable is not assigned anywhere in the program, is distinct from enclosing loop variables,
       is read only inside its own loop; the body assigns no name occurring in the range argument;
